@@ -94,8 +94,14 @@ def c14_1(ctx: Ctx) -> RuleResult:
 _PYSCALAR_ATTRS = {"size", "ndim", "nbytes", "itemsize"}
 
 
+_SCALAR_PARAMS: dict = {}
+
+
 def is_pyscalar(t: Term) -> bool:
     k = t[0]
+    if k == "param":
+        # a parameter annotated `int` / `float` (filled by check_division's caller for the repo at hand)
+        return bool(_SCALAR_PARAMS.get((t[1], t[2])))
     if k == "const":
         return isinstance(t[1], (int, float)) and not isinstance(t[1], bool)
     if k == "attr":
@@ -283,9 +289,19 @@ def _subst_params(t, mapping: dict) -> Term:
     return tuple(_subst_params(x, mapping) for x in t)
 
 
+def _note_scalar_params(ctx: Ctx, f: Func) -> None:
+    if isinstance(f.node, ast.Lambda):
+        return
+    a = f.node.args
+    for x in a.posonlyargs + a.args + a.kwonlyargs:
+        if x.annotation is not None and ast.unparse(x.annotation) in ("int", "float"):
+            _SCALAR_PARAMS[(f.qualname, x.arg)] = True
+
+
 def check_division(ctx: Ctx, res: RuleResult, f: Func, node: ast.AST, divisor: ast.AST) -> None:
     from ..callgraph import bind_args, _is_bound_call
 
+    _note_scalar_params(ctx, f)
     dterm = ctx.X.at(f, divisor)
     if not is_pyscalar(dterm):
         return
